@@ -194,6 +194,7 @@ def ob_read_info(ctx, res):
                 ok = False
         if ok:
             res.ok(arm, "common header (%s arm): 11 reads after the magic in published order, each bound to the like-named BBIHeader field" % en)
+    _header_values_unchanged(ctx, res, fn, hm)
     # chrom tree header
     cm, cbig, clit = ms[1]
     seeks = [c for c in calls(fn.body, method="seek") if c.order < cm.order and "chromosome_tree_offset" in up(c)]
@@ -220,6 +221,58 @@ def ob_read_info(ctx, res):
             res.fail("chromTreeHeader/keysize-flow", fn, "keySize read from the tree header must be passed to read_chrom_tree_block")
         else:
             res.ok(cs[0], "keySize flows into the block reader")
+
+
+# first file version in which a header slot carries a value (before that the slot is reserved space a reader need not trust)
+HEADER_SINCE = {"total_summary_offset": 2, "uncompress_buf_size": 3}
+
+
+def _header_values_unchanged(ctx, res, fn, hm):
+    """commonHeader/value: what ends up in each BBIHeader field is the decoded value itself for every file version that defines the slot.
+    The statements between the decoding `let` and the BBIHeader literal are evaluated for versions 1..4 with distinct stand-in values."""
+    from ..rules.interp import Interp, NotPure, _Return
+    st = stmt_of(hm)
+    lits = [n for n in walk_no_nested_fn(fn.body) if n.k == "struct" and n["path"].endswith("BBIHeader")]
+    if st is None or st.k != "let" or st["pat"].k != "p_tuple" or len(lits) != 1:
+        return      # reported by the flow clause
+    lst = lits[0]
+    while lst.parent is not None and lst.parent is not fn.body:
+        lst = lst.parent
+    top = fn.body["stmts"]
+    if not any(x is st for x in top) or not any(x is lst for x in top):
+        res.undecided("commonHeader/value", lits[0], "decoding `let` and BBIHeader literal are not both statements of read_info's body")
+        return
+    i0 = [i for i, x in enumerate(top) if x is st][0]
+    i1 = [i for i, x in enumerate(top) if x is lst][0]
+    between = top[i0 + 1:i1]
+    outer = [up(e) for e in st["pat"]["elems"]]
+    if "version" not in outer:
+        res.undecided("commonHeader/value", st, "no `version` among the decoded names")
+        return
+    flds = {x["name"]: x["e"] for x in lits[0]["fields"]}
+    for v in (1, 2, 3, 4):
+        env = {nm: 1000 + i for i, nm in enumerate(outer)}
+        env["version"] = v
+        want = dict(env)
+        it = Interp(ctx.ast, R, extern={"None": None})
+        try:
+            it.run_stmts(between, env, 0)
+            got = {}
+            for hf in HEADER_FIELD.values():
+                if hf in flds:
+                    got[hf] = it.ev(flds[hf], env, 0)
+        except (NotPure, _Return) as e:
+            if between:
+                res.undecided("commonHeader/value", between[0], "statements between header decode and BBIHeader literal are outside the evaluated fragment (%s)" % e)
+            else:
+                res.undecided("commonHeader/value", lits[0], "BBIHeader field initialisers are outside the evaluated fragment (%s)" % e)
+            return
+        for hf, g in got.items():
+            if v >= HEADER_SINCE.get(hf, 1) and g != want.get(hf):
+                res.fail("commonHeader/%s/value" % hf, flds[hf], "for a version-%d file BBIHeader.%s does not receive the decoded value (stand-in %s, got %s): "
+                         "the slot is defined from version %d on" % (v, hf, want.get(hf), g, HEADER_SINCE.get(hf, 1)))
+                return
+    res.ok(lits[0], "BBIHeader fields receive the decoded values unchanged for versions 1-4 (%d statements in between evaluated)" % len(between))
 
 
 def _magic_table(ctx, res, fn, magic_read):
